@@ -69,6 +69,7 @@ fn main() {
             std::process::exit(if bad == 0 { 0 } else { 1 });
         }
         "dispatch" => fam_dispatch::run(&mut out, args.seed),
+        "contend" => fam_dispatch::run_n(&mut out, args.seed, if args.thorough { 400 } else { 60 }),
         "c11big" => fam_gen::run_c11big(&mut out, &mut rng, only, !args.extra.iter().any(|x| x == "--no-giant"), !args.extra.iter().any(|x| x == "--only-giant")),
         "misc" => fam_misc::run(&mut out, &mut rng, args.thorough),
         "agg" => fam_gen::run_agg(&mut out, &mut rng, args.thorough, only),
@@ -83,6 +84,8 @@ fn main() {
         "c13" => fam_codec::run_c13(&mut out, &mut rng, args.thorough, only),
         #[cfg(all(feature = "easy", feature = "std"))]
         "c12" => fam_stream::run_c12(&mut out, &mut rng, args.thorough, only, !args.extra.iter().any(|x| x == "--no-interrupts")),
+        #[cfg(all(feature = "easy", feature = "std"))]
+        "c12big" => fam_stream::run_c12big(&mut out, &mut rng, only, args.thorough),
         #[cfg(all(feature = "easy", feature = "std"))]
         "misreport" => fam_stream::run_misreport(&mut out, &mut rng, only),
         #[cfg(feature = "serde")]
